@@ -31,7 +31,10 @@ from __future__ import annotations
 
 import io
 import itertools
+import os
 import re
+import shutil
+import tempfile
 
 from mc import core, gen
 
@@ -44,7 +47,15 @@ RULE = (
     "depth 2 and all triples at depth 1 over every field/file kind combination and repeated / distinct names; each "
     "through 3 pipelines (sans-io with 4 ways of chunking the payload, encode_multipart -> MultiPartParser, "
     "EnvironBuilder -> Request). urlencoded: all single pairs with keys, values <=2 atoms (thorough <=3 x <=2) over "
-    "12 atoms, all lists of 2 pairs at depth 1, all lists of 3 pairs over a reduced alphabet, through 3 pipelines. "
+    "12 atoms, all lists of 2 pairs at depth 1, all lists of 3 pairs over a reduced alphabet, through 3 pipelines "
+    "plus 8 further API forms (encoded text as str / bytes body, as query string, inside the path, parse_form_data, "
+    "Request.values, test client). api: 734 part lists (thorough: pairs at depth 2) x 18 ways of handing them over "
+    "and reading them back (dict / dict of lists, FileStorage, open file, path string, builder.form / files.add_file, "
+    "pre-encoded body as bytes / stream / BytesIO with token and quoted boundary, Client.post with and without explicit "
+    "content type and across a 307 redirect, parse_form_data with and without stream_factory, parameter_storage_class "
+    "MultiDict / dict, Request.values, EnvironBuilder.from_environ), non-str values. foreign: names x filenames x 8 "
+    "Content-Disposition styles other clients use (token, RFC 2231 extended utf-8 / latin-1 / with language, "
+    "continuations, folded header). "
     "non-trivial = a case whose payload/name is not plain letters (contains CR, LF, '-', quote, %, non-ASCII, NUL "
     "or a near-delimiter) or that has more than one part."
 )
@@ -114,8 +125,8 @@ def as_bytes(kind, payload, ctype) -> bytes:
     if kind == "file":
         return payload
     if kind == "cfield":
-        return payload.encode(ctype.split("charset=")[1])
-    return payload.encode("utf-8")
+        return payload.encode(ctype.split("charset=")[1].strip('"'))
+    return (payload if isinstance(payload, str) else str(payload)).encode("utf-8")
 
 
 # ------------------------------------------------------------------ pipelines
@@ -216,7 +227,8 @@ def expect_form(parts, pipeline: str):
     seq = [p for _n, p in seq]
     if pipeline == "request":
         seq = [p for p in seq if p[0] == "field"] + [p for p in seq if p[0] != "field"]
-    fields = [(name, payload) for kind, name, _f, _c, payload in seq if kind != "file"]
+    fields = [(name, payload if isinstance(payload, str) else str(payload))
+              for kind, name, _f, _c, payload in seq if kind != "file"]
     files = [(name, filename, ctype or "application/octet-stream", payload)
              for kind, name, filename, ctype, payload in seq if kind == "file"]
     return grouped(fields), grouped(files)
@@ -422,6 +434,9 @@ def mp_cases(tier):
             except UnicodeEncodeError:
                 continue
             yield ("C", (("cfield", "t", None, f"text/plain; charset={cs}", v), fld("u", v)), 1, None)
+            if cs in ("utf-8", "iso-8859-1"):   # other spellings of the parameter
+                yield ("C", (("cfield", "t", None, f"text/plain;charset={cs}", v),), 1, None)
+                yield ("C", (("cfield", "t", None, f'text/plain; format=flowed; charset="{cs}"', v),), 1, None)
     # P: pairs at depth 2
     t2 = list(gen.strings(TA, 2))
     b2 = list(gen.bstrings(BA, 2))
@@ -475,6 +490,334 @@ def sweep_check(cp: int):
     return fails + f, ran
 
 
+
+# ------------------------------------------------------------------ API forms
+# The same part list handed over / read back through every documented way of doing it.
+
+API_VARIANTS = [
+    "dict", "ct-with-boundary", "filestorage", "openfile", "pathstr", "attrs", "body-bytes-token", "body-bytes-quoted", "body-stream",
+    "body-bytesio-data", "client", "client-ct", "client-307", "parse_form_data", "cls-multidict", "cls-dict",
+    "values", "from_environ", "stream_factory",
+]
+
+
+class _owned_boundary:
+    def __init__(self, i=0):
+        self.i = i
+
+    def __enter__(self):
+        t, r = REQ_SUFFIX[self.i]
+        self.old = wtest.time, wtest.random
+        wtest.time, wtest.random = (lambda: t), (lambda: r)
+
+    def __exit__(self, *a):
+        wtest.time, wtest.random = self.old
+        return False
+
+
+def _read_request(req):
+    try:
+        return list(req.form.items(multi=True)), read_files(req.files)
+    finally:
+        req.close()
+
+
+def _dict_of_lists(vals):
+    d: dict = {}
+    for k, v in vals:
+        d.setdefault(k, []).append(v)
+    return {k: (v[0] if len(v) == 1 else v) for k, v in d.items()}
+
+
+def run_api(variant: str, parts, tmpdir: str):
+    """Returns got = (fields, files) | ('EXC', text) | ('SKIP', why); plus the parts as the variant is expected to
+    return them (file names may be replaced by the on-disk path)."""
+    from werkzeug.formparser import parse_form_data
+    from werkzeug.test import Client
+
+    exp_parts = parts
+    has_file = any(p[0] == "file" for p in parts)
+    builders = []
+    opened = []
+    try:
+        with _owned_boundary(0):
+            force = {} if has_file else {"content_type": "multipart/form-data"}
+            if variant == "dict":
+                b = EnvironBuilder(method="POST", data=_dict_of_lists(to_values(parts, True)), **force)
+            elif variant == "ct-with-boundary":
+                # an explicit multipart content type that already names a boundary: the builder picks its own
+                b = EnvironBuilder(method="POST", data=MultiDict(to_values(parts, True)),
+                                   content_type="multipart/form-data; boundary=chosen-by-the-caller")
+            elif variant == "filestorage":
+                b = EnvironBuilder(method="POST", data=MultiDict(to_values(parts, False)), **force)
+            elif variant in ("openfile", "pathstr"):
+                if not has_file:
+                    return ("SKIP", "no file"), parts
+                vals, exp_parts = [], []
+                for i, (kind, name, filename, ctype, payload) in enumerate(parts):
+                    if kind != "file":
+                        vals.append((name, payload))
+                        exp_parts.append((kind, name, filename, ctype, payload))
+                        continue
+                    path = os.path.join(tmpdir, "u%d" % i)
+                    with open(path, "wb") as f:
+                        f.write(payload)
+                    exp_parts.append((kind, name, path, None, payload))
+                    vals.append((name, path))
+                b = EnvironBuilder(method="POST")
+                for name, v in vals:
+                    if isinstance(v, str) and v.startswith(tmpdir) and variant == "pathstr":
+                        b.files.add_file(name, v)
+                    elif isinstance(v, str) and v.startswith(tmpdir):
+                        fh = open(v, "rb")
+                        opened.append(fh)
+                        b.files.add_file(name, fh)
+                    else:
+                        b.form.add(name, v)
+                exp_parts = tuple(exp_parts)
+            elif variant == "attrs":
+                b = EnvironBuilder(method="POST", **force)
+                for kind, name, filename, ctype, payload in parts:
+                    if kind == "field":
+                        b.form.add(name, payload)
+                    elif kind == "cfield":
+                        b.files.add_file(name, FileStorage(io.BytesIO(as_bytes(kind, payload, ctype)), filename=None,
+                                                           name=name, content_type=ctype))
+                    else:
+                        b.files.add_file(name, io.BytesIO(payload), filename=filename, content_type=ctype)
+            elif variant.startswith("body-"):
+                boundary = BOUNDARIES[1] if "quoted" not in variant else BOUNDARIES[2]
+                if not all(carriable(as_bytes(k, pl, c), boundary.encode()) for k, _n, _f, c, pl in parts):
+                    return ("SKIP", "uncarriable"), parts
+                _b, body = encode_multipart(MultiDict(to_values(parts, False)), boundary=boundary)
+                ct = (f'multipart/form-data; boundary="{boundary}"' if "quoted" in variant
+                      else f"multipart/form-data; boundary={boundary}")
+                if variant == "body-stream":
+                    b = EnvironBuilder(method="POST", input_stream=io.BytesIO(body), content_type=ct)
+                elif variant == "body-bytesio-data":
+                    b = EnvironBuilder(method="POST", data=io.BytesIO(body) if body else b"", content_type=ct)
+                else:
+                    b = EnvironBuilder(method="POST", data=body, content_type=ct)
+            elif variant in ("client", "client-ct", "client-307"):
+                seen = []
+
+                def app(environ, start_response):
+                    if variant == "client-307" and environ["PATH_INFO"] == "/first":
+                        start_response("307 TEMPORARY REDIRECT", [("Location", "/second"), ("Content-Length", "0")])
+                        return [b""]
+                    seen.append(_read_request(Request(environ)))
+                    start_response("200 OK", [("Content-Type", "text/plain")])
+                    return [b"ok"]
+
+                kw = dict(force)
+                if variant == "client-ct":
+                    kw["content_type"] = "multipart/form-data"
+                c = Client(app)
+                resp = c.post("/first", data=MultiDict(to_values(parts, True)),
+                              follow_redirects=variant == "client-307", **kw)
+                resp.close()
+                if len(seen) != 1:
+                    return ("EXC", f"app was reached {len(seen)} times"), parts
+                return seen[0], parts
+            else:
+                b = EnvironBuilder(method="POST", data=MultiDict(to_values(parts, True)), **force)
+            builders.append(b)
+            env = b.get_environ()
+        if variant == "parse_form_data":
+            stream, form, files = parse_form_data(env)
+            return (list(form.items(multi=True)), read_files(files)), exp_parts
+        if variant == "stream_factory":
+            made = []
+
+            def factory(total_content_length, content_type, filename, content_length=None):
+                made.append((filename, content_type))
+                return io.BytesIO()
+
+            stream, form, files = parse_form_data(env, stream_factory=factory)
+            got = (list(form.items(multi=True)), read_files(files))
+            if len(made) != len(got[1]):
+                return ("EXC", f"stream factory called {len(made)} times for {len(got[1])} files"), exp_parts
+            return got, exp_parts
+        if variant in ("cls-multidict", "cls-dict"):
+            cls = MultiDict if variant == "cls-multidict" else dict
+
+            class R2(Request):
+                parameter_storage_class = cls
+
+            req = R2(env)
+            try:
+                if cls is dict:
+                    return (sorted(req.form.items()), sorted((k, f.filename) for k, f in req.files.items())), exp_parts
+                return (list(req.form.items(multi=True)), read_files(req.files)), exp_parts
+            finally:
+                req.close()
+        if variant == "values":
+            env["QUERY_STRING"] = "q=1&a=from-args"
+            req = Request(env)
+            try:
+                vals = req.values
+                keys = list(dict.fromkeys(["q", "a"] + [k for k in req.form]))
+                return ([(k, v) for k in keys for v in vals.getlist(k)], read_files(req.files)), exp_parts
+            finally:
+                req.close()
+        if variant == "from_environ":
+            b2 = EnvironBuilder.from_environ(env)
+            builders.append(b2)
+            return _read_request(b2.get_request(Request)), exp_parts
+        return _read_request(Request(env)), exp_parts
+    except Exception as e:  # noqa: BLE001
+        return ("EXC", f"{type(e).__name__}: {e}"), exp_parts
+    finally:
+        for b in builders:
+            b.close()
+        for fh in opened:
+            try:
+                fh.close()
+            except Exception:  # noqa: BLE001
+                pass
+
+
+def expect_api(variant: str, parts):
+    model = "parser" if variant.startswith("body-") else "request"
+    fields, files = expect_form(parts, model)
+    if variant == "cls-dict":
+        return sorted(dict(fields).items()), sorted(dict((k, fn) for k, fn, _c, _d in files).items())
+    if variant == "values":
+        keys = list(dict.fromkeys(["q", "a"] + [k for k, _ in fields]))
+        args = {"q": ["1"], "a": ["from-args"]}
+        fl = as_lists(fields)
+        return [(k, v) for k in keys for v in args.get(k, []) + [x[1] for x in fl.get(k, [])]], files
+    return fields, files
+
+
+def check_api(parts, tmpdir: str, variants=API_VARIANTS):
+    fails = []
+    ran = 0
+    if not all(carriable(as_bytes(k, p, c), req_boundary(0).encode()) for k, _n, _f, c, p in parts):
+        return fails, ran
+    for variant in variants:
+        got, eparts = run_api(variant, parts, tmpdir)
+        if got and got[0] == "SKIP":
+            continue
+        ran += 1
+        exp = expect_api(variant, eparts)
+        ok = got == exp or (variant not in ("cls-dict", "values") and same_form(eparts, exp, got))
+        if not ok and variant in ("openfile", "pathstr"):
+            # a file handed over by path only: its full path (today) or its base name are both "the same file name"
+            alt = tuple((k, n, os.path.basename(f) if k == "file" else f, c, pl) for k, n, f, c, pl in eparts)
+            exp2 = expect_api(variant, alt)
+            ok = got == exp2 or same_form(alt, exp2, got)
+        if not ok and variant == "values" and isinstance(got, tuple) and len(got) == 2 and isinstance(got[0], list):
+            # the order in which args and form contribute to .values is not part of the property
+            ok = sorted(got[0]) == sorted(exp[0]) and got[1] == exp[1]
+        if not ok:
+            fails.append((f"api:{variant}:" + diff_sig(exp, got) if variant not in ("cls-dict", "values")
+                          else f"api:{variant}:" + ("exception" if got and got[0] == "EXC" else "differs"),
+                          {"pipeline": "api", "variant": variant, "expected": exp, "got": got}))
+    return fails, ran
+
+
+def api_cases(tier):
+    T = tier == "thorough"
+    t1 = list(gen.strings(TA, 1)) + near("bnd")[:8] + near(req_boundary(0))[:6]
+    b1 = list(gen.bstrings(BA, 1)) + [n.encode() for n in near("bnd")[:6]]
+    for v in t1:
+        yield (fld("a", v),)
+    for d in b1:
+        for ct in CTYPES:
+            yield (("file", "f", "noext", ct, d),)
+    yield ()
+    for n in NAMES:
+        yield (fld(n, "v"), fil(n, n or "x", b"d"))
+    # non-string values are sent as str(value)
+    for v in (0, 5, -1, 1.5, True):
+        yield (("field", "n", None, None, v), fld("a", "x"))
+    tt = list(gen.strings(TA, 2 if T else 1))
+    bb = list(gen.bstrings(BA, 2 if T else 1))
+    for n1, n2 in (("a", "a"), ("a", "é")):
+        for v1 in tt:
+            for v2 in tt:
+                yield (fld(n1, v1), fld(n2, v2))
+            for d in bb:
+                yield (fld(n1, v1), fil(n2, "x y", d))
+                yield (fil(n2, "x y", d, "text/plain"), fld(n1, v1))
+        for da in bb:
+            for db in bb:
+                yield (fil(n1, "1", da), fil(n2, "2", db, "text/plain"))
+    small_t, small_b = ["", "a", "\r\n", "é"], [b"", b"a", b"\r", b"\xff"]
+    for v1 in small_t:
+        for d in small_b:
+            for v3 in small_t:
+                yield (fld("a", v1), fil("b", "f1", d), fld("a", v3))
+                yield (fil("a", "f0", d), fld("b", v1), fil("a", "f2", d + b"-"))
+    for cs in ("utf-8", "iso-8859-1"):
+        yield (("cfield", "t", None, f"text/plain; charset={cs}", "é\r\nÿ"), fld("u", "é"))
+
+
+# ------------------------------------------------------------------ foreign encoders (RFC 2231 parameters)
+# Bodies written the way other clients write them; the suite pins these forms in test_http / test_formparser.
+
+F_NAMES = ["a", "é", "n m", "名", "a;b", "x'y", "%", "a*", "𝄞", "a=b", "é.txt", "a%41", "ab cd"]
+F_STYLES = ["plain", "token", "ext-utf8", "ext-UTF-8-lang", "ext-latin1", "cont", "cont-ext", "folded"]
+
+
+def _pct(s: str, enc: str) -> str:
+    from urllib.parse import quote
+
+    return quote(s.encode(enc), safe="")
+
+
+def foreign_param(key: str, value: str, style: str):
+    """One Content-Disposition parameter in the given style, or None if the style cannot carry the value."""
+    if style == "plain" or style == "folded":
+        return f'{key}="{value}"'
+    if style == "token":
+        return f"{key}={value}" if re.fullmatch(r"[A-Za-z0-9!#$&+\-.^_`|~]+", value) else None
+    if style == "ext-utf8":
+        return f"{key}*=utf-8''{_pct(value, 'utf-8')}" if value else None
+    if style == "ext-UTF-8-lang":
+        return f"{key}*=UTF-8'en'{_pct(value, 'utf-8')}" if value else None
+    if style == "ext-latin1":
+        try:
+            return f"{key}*=iso-8859-1''{_pct(value, 'iso-8859-1')}" if value else None
+        except UnicodeEncodeError:
+            return None
+    if len(value) < 2:
+        return None
+    k = len(value) // 2
+    if style == "cont":
+        return f'{key}*0="{value[:k]}"; {key}*1="{value[k:]}"'
+    return f"{key}*0*=UTF-8''{_pct(value[:k], 'utf-8')}; {key}*1*={_pct(value[k:], 'utf-8')}"
+
+
+def foreign_cases():
+    for style in F_STYLES:
+        for n in F_NAMES:
+            for fn in F_NAMES[:8]:
+                yield (style, n, fn)
+
+
+def check_foreign(style: str, name: str, filename: str):
+    pn, pf = foreign_param("name", name, style), foreign_param("filename", filename, style)
+    if pn is None or pf is None:
+        return [], 0
+    sep = ";\r\n\t" if style == "folded" else "; "
+    body = (
+        f"--bnd\r\nContent-Disposition: form-data{sep}{pn}{sep}{pf}\r\nContent-Type: text/plain\r\n\r\nDATA\r\n"
+        f"--bnd\r\nContent-Disposition: form-data{sep}{pn}\r\n\r\nvalue\r\n--bnd--\r\n"
+    ).encode("utf-8")
+    exp = ([(name, "value")], [(name, filename, "text/plain", b"DATA")])
+    try:
+        form, files = MultiPartParser().parse(io.BytesIO(body), b"bnd", len(body))
+        got = (list(form.items(multi=True)), read_files(files))
+    except Exception as e:  # noqa: BLE001
+        got = ("EXC", f"{type(e).__name__}: {e}")
+    if got != exp:
+        return [("foreign:" + style + ":" + diff_sig(exp, got),
+                 {"pipeline": "foreign", "expected": exp, "got": got, "body": body[:300]})], 1
+    return [], 1
+
+
 # ------------------------------------------------------------------ urlencoded
 
 UA = ["a", "&", "=", "+", "%", " ", ";", "#", "é", "𝄞", "\0", "%41"]
@@ -505,7 +848,7 @@ def ue_cases(tier):
                 yield (a, b, c)
 
 
-def check_ue(pairs):
+def check_ue(pairs, forms=True):
     fails = []
     pairs = list(pairs)
     exp = grouped(pairs)
@@ -548,12 +891,95 @@ def check_ue(pairs):
         if variant == "multidict" and got_args != exp:
             fails.append(("urlencoded:request.args:" + ("exception" if got_args and got_args[0] == "EXC" else "differs"),
                           {"pipeline": "request.args", "expected": exp, "got": got_args}))
+    if forms:
+        fails += check_ue_forms(pairs, exp)
+    return fails
+
+
+def check_ue_forms(pairs, exp):
+    """The same pair list through the other documented ways in and out."""
+    from werkzeug.formparser import parse_form_data
+    from werkzeug.test import Client
+
+    fails = []
+    enc = _urlencode(pairs)
+
+    def judge(form, got):
+        if got != exp:
+            fails.append((f"urlencoded:{form}:" + ("exception" if got and got[0] == "EXC" else "differs"),
+                          {"pipeline": form, "expected": exp, "got": got, "encoded": enc}))
+
+    def attempt(form, fn):
+        try:
+            got = fn()
+        except Exception as e:  # noqa: BLE001
+            got = ("EXC", f"{type(e).__name__}: {e}")
+        judge(form, got)
+
+    def with_builder(kw, read):
+        b = EnvironBuilder(**kw)
+        try:
+            return read(b.get_environ())
+        finally:
+            b.close()
+
+    ct = "application/x-www-form-urlencoded"
+    # the encoded text as the whole body (str and bytes), as the query string, and inside the path
+    if enc:
+        attempt("body-str", lambda: with_builder(
+            dict(method="POST", data=enc, content_type=ct), lambda env: list(Request(env).form.items(multi=True))))
+        attempt("body-bytes", lambda: with_builder(
+            dict(method="PUT", data=enc.encode("ascii"), content_type=ct + "; charset=utf-8"),
+            lambda env: list(Request(env).form.items(multi=True))))
+    attempt("query-str", lambda: with_builder(
+        dict(query_string=enc), lambda env: list(Request(env).args.items(multi=True))))
+    if enc:
+        attempt("path-query", lambda: with_builder(
+            dict(path="/p?" + enc), lambda env: list(Request(env).args.items(multi=True))))
+    # parse_form_data and Request.values on a mapping-built environ
+    attempt("parse_form_data", lambda: with_builder(
+        dict(method="POST", data=MultiDict(pairs)), lambda env: list(parse_form_data(env)[1].items(multi=True))))
+
+    def values(env):
+        v = Request(env).values
+        keys = list(dict.fromkeys(k for k, _ in pairs))
+        return [(k, x) for k in keys for x in v.getlist(k)]
+
+    def exp_values():
+        d = as_lists(exp)
+        return [(k, x[1]) for k in d for x in d[k] + d[k]]
+
+    try:
+        got = with_builder(dict(method="POST", data=MultiDict(pairs), query_string=MultiDict(pairs)), values)
+    except Exception as e:  # noqa: BLE001
+        got = ("EXC", f"{type(e).__name__}: {e}")
+    if got != exp_values():
+        fails.append(("urlencoded:values:" + ("exception" if got and got[0] == "EXC" else "differs"),
+                      {"pipeline": "values", "expected": exp_values(), "got": got, "encoded": enc}))
+    # the test client
+    seen = []
+
+    def app(environ, start_response):
+        r = Request(environ)
+        seen.append((list(r.form.items(multi=True)), list(r.args.items(multi=True))))
+        start_response("200 OK", [("Content-Type", "text/plain")])
+        return [b"ok"]
+
+    try:
+        Client(app).post("/", data=MultiDict(pairs), query_string=MultiDict(pairs)).close()
+        got = seen[0] if len(seen) == 1 else ("EXC", f"app reached {len(seen)} times")
+    except Exception as e:  # noqa: BLE001
+        got = ("EXC", f"{type(e).__name__}: {e}")
+    if got != (exp, exp):
+        fails.append(("urlencoded:client:" + ("exception" if got and got[0] == "EXC" else "differs"),
+                      {"pipeline": "client", "expected": (exp, exp), "got": got, "encoded": enc}))
     return fails
 
 
 # ------------------------------------------------------------------ units
 
 N_MP = 96
+N_API = 32
 N_UE = 48
 SWEEP_CHUNK = 0x800
 
@@ -564,6 +990,8 @@ def units(tier):
     top = 0x110000 if tier == "thorough" else 0x10000
     out += [("sweep", lo, min(lo + SWEEP_CHUNK, top)) for lo in range(0, top, SWEEP_CHUNK)]
     out += [("big", i, 0) for i in range(len(BIG) * 2)]
+    out += [("api", i, N_API) for i in range(N_API)]
+    out += [("foreign", 0, 1)]
     return out
 
 
@@ -616,6 +1044,36 @@ def run_unit(unit, R, tier):
             # do not store megabytes in the replay record: the case is rebuilt from its index
             slim = {k: (v if k not in ("expected", "got", "body") else core.show(v, 300)) for k, v in d.items()}
             R.violation(sig, {"kind": "big", "sig": sig, "index": unit[1], **slim})
+    elif kind == "api":
+        _, idx, n = unit
+        tmpdir = tempfile.mkdtemp(prefix="c02_")
+        try:
+            for j, parts in enumerate(gen.shard(api_cases(tier), n, idx)):
+                fails, ran = check_api(parts, tmpdir)
+                R.ev(ran)
+                R.count("api_cases")
+                R.count("api_runs", ran)
+                if ran:
+                    R.nontrivial(("api", parts))
+                R.outcome(("api", len(parts), bool(fails)))
+                if j % 211 == 0:
+                    R.sample({"kind": "api", "parts": parts, "variants": ran})
+                for sig, d in fails:
+                    R.use("api:fail:" + d["variant"])
+                    R.violation(sig, {"kind": "api", "sig": sig, "parts": [list(p) for p in parts], **d})
+        finally:
+            shutil.rmtree(tmpdir, ignore_errors=True)
+    elif kind == "foreign":
+        for style, name, filename in foreign_cases():
+            fails, ran = check_foreign(style, name, filename)
+            R.ev(ran)
+            R.count("foreign_cases", ran)
+            if ran:
+                R.use("foreign:" + style)
+                R.nontrivial(("foreign", style, name, filename))
+            for sig, d in fails:
+                R.violation(sig, {"kind": "foreign", "sig": sig, "style": style, "name": name,
+                                  "filename": filename, **d})
     elif kind == "sweep":
         _, lo, hi = unit
         for cp in range(lo, hi):
@@ -636,7 +1094,11 @@ def run_unit(unit, R, tier):
         for j, pairs in enumerate(gen.shard(ue_cases(tier), n, idx)):
             R.ev(4)
             R.count("urlencoded_cases")
-            fails = check_ue(pairs)
+            # the further API forms: every list in thorough; in quick all single pairs, all triples and the
+            # two-pair lists with a repeated key
+            forms = tier == "thorough" or len(pairs) != 2 or pairs[0][0] == pairs[1][0]
+            R.use("ue:forms" if forms else "ue:core-only")
+            fails = check_ue(pairs, forms)
             txt = "".join(k + v for k, v in pairs)
             if len(pairs) > 1 or not txt.isalnum():
                 R.nontrivial(pairs)
@@ -656,24 +1118,28 @@ def run_unit(unit, R, tier):
 def finalize(R, tier):
     need = {"mp:S-field", "mp:S-file", "mp:S-file-ct", "mp:Z", "mp:N", "mp:C", "mp:P-ff", "mp:P-fF", "mp:P-Ff",
             "mp:P-FF", "mp:T", "mp:uncarriable-for-some-boundary", "mp:empty-value", "mp:linebreak-in-value",
-            "ue:repeated-key", "ue:empty-value", "ue:empty-key"}
+            "ue:repeated-key", "ue:empty-value", "ue:empty-key", "ue:forms"}
     need |= {"mp:BIG:%d" % n for n in BIG}
+    need |= {"foreign:" + st for st in F_STYLES}
     missing = need - R.used
     if missing:
         raise core.Broken(f"vacuity: never exercised {sorted(missing)}")
-    for k, floor in (("multipart_cases", 40_000), ("urlencoded_cases", 50_000), ("sweep_code_points", 60_000)):
+    for k, floor in (("multipart_cases", 40_000), ("urlencoded_cases", 50_000), ("sweep_code_points", 60_000),
+                     ("api_runs", 5_000), ("foreign_cases", 300)):
         if R.counts[k] < floor:
             raise core.Broken(f"vacuity: only {R.counts[k]} {k}")
     if carriable(b"x\r\n--bnd\r\ny", b"bnd") or carriable(b"--bnd", b"bnd") or not carriable(b"x--bnd\r\n--bn", b"bnd"):
         raise core.Broken("domain filter (carriable) is wrong")
     return {
-        "bound": ("single parts depth 3, pairs depth 2, triples depth 1, BMP sweep; urlencoded strings <=2"
+        "bound": ("single parts depth 3, pairs depth 2, triples depth 1, BMP sweep; urlencoded strings <=2; API forms "
+                  "on pairs depth 1"
                   if tier == "quick" else
                   "single parts depth 4, pairs depth 2, triples depth 1 (+ depth 2 for fields), all-planes sweep; "
-                  "urlencoded strings <=3 x <=2"),
+                  "urlencoded strings <=3 x <=2, all API forms on every list; API forms on pairs depth 2"),
         "exhaustive": True,
         "n_multipart": R.counts["multipart_cases"], "n_urlencoded": R.counts["urlencoded_cases"],
-        "n_sweep": R.counts["sweep_code_points"],
+        "n_sweep": R.counts["sweep_code_points"], "n_api_runs": R.counts["api_runs"],
+        "n_foreign": R.counts["foreign_cases"],
     }
 
 
@@ -697,6 +1163,17 @@ def replay(rec):
     elif kind == "sweep":
         fails, _ = sweep_check(rec["cp"])
         text = f"code point U+{rec['cp']:04X}"
+    elif kind == "api":
+        parts = _parts(rec)
+        tmpdir = tempfile.mkdtemp(prefix="c02_")
+        try:
+            fails, _ = check_api(parts, tmpdir, [rec["variant"]])
+        finally:
+            shutil.rmtree(tmpdir, ignore_errors=True)
+        text = f"API form {rec['variant']!r} parts={core.show(parts, 600)}"
+    elif kind == "foreign":
+        fails, _ = check_foreign(rec["style"], rec["name"], rec["filename"])
+        text = f"foreign encoder style={rec['style']!r} name={rec['name']!r} filename={rec['filename']!r}"
     elif kind == "urlencoded":
         pairs = tuple(tuple(p) for p in rec["pairs"])
         fails = check_ue(pairs)
